@@ -1,1 +1,314 @@
-//! shared helpers
+//! Shared helpers of the tensor_store harnesses: value/key generators over all value kinds and
+//! key classes, a canonical NaN-aware "view" of a store read through its public API, and
+//! directory images (the bytes of every file of a durable store) for crash simulation.
+
+use common::Rng;
+use std::collections::BTreeMap;
+use std::path::Path;
+use tensor_store::{ScalarValue, SparseVector, TensorData, TensorStore, TensorValue};
+
+pub fn install_hooks() {
+    tensor_store::verif_hooks::set(common::sched::on_point);
+}
+
+// ---------------------------------------------------------------------------------------------
+// generators
+// ---------------------------------------------------------------------------------------------
+
+pub const KEY_CLASSES: &[&str] = &["plain", "emb", "node", "edge", "table", "blob", "cache"];
+
+pub fn gen_key(rng: &mut Rng, nkeys: usize, with_cache: bool) -> String {
+    let i = rng.below(nkeys);
+    let classes: &[&str] = if with_cache {
+        &["k:", "emb:", "emb:", "node:", "edge:", "table:", "_blob:meta:", "_cache:", "user/é:"]
+    } else {
+        &["k:", "emb:", "emb:", "node:", "edge:", "table:", "_blob:meta:", "user/é:"]
+    };
+    format!("{}{}", rng.pick(classes), i)
+}
+
+pub fn gen_f64(rng: &mut Rng) -> f64 {
+    match rng.below(10) {
+        0 => f64::NAN,
+        1 => f64::INFINITY,
+        2 => f64::NEG_INFINITY,
+        3 => -0.0,
+        4 => 0.0,
+        5 => f64::MIN_POSITIVE,
+        6 => f64::MAX,
+        _ => rng.f64_in(-1e6, 1e6),
+    }
+}
+
+pub fn gen_f32(rng: &mut Rng, specials: bool) -> f32 {
+    if specials {
+        match rng.below(24) {
+            0 => return f32::NAN,
+            1 => return f32::INFINITY,
+            2 => return -0.0,
+            3 => return f32::MIN_POSITIVE,
+            4 => return f32::MAX,
+            _ => {}
+        }
+    }
+    rng.f64_in(-2.0, 2.0) as f32
+}
+
+pub fn gen_string(rng: &mut Rng) -> String {
+    match rng.below(6) {
+        0 => String::new(),
+        1 => "héllo wörld ✓ 日本".to_string(),
+        2 => "a\0b\n\"quoted\"".to_string(),
+        3 => "x".repeat(1 + rng.below(300)),
+        _ => format!("s{}", rng.next_u64() % 100_000),
+    }
+}
+
+pub fn gen_vector(rng: &mut Rng, dim: usize, specials: bool) -> Vec<f32> {
+    let sparse = rng.chance(1, 3);
+    (0..dim)
+        .map(|_| if sparse && rng.chance(4, 5) { 0.0 } else { gen_f32(rng, specials) })
+        .collect()
+}
+
+pub fn gen_scalar(rng: &mut Rng) -> ScalarValue {
+    match rng.below(9) {
+        0 => ScalarValue::Null,
+        1 => ScalarValue::Bool(rng.bool()),
+        2 => ScalarValue::Int(*rng.pick(&[i64::MIN, i64::MAX, 0, -1, 1])),
+        3 => ScalarValue::Int(rng.range(-1000, 1000)),
+        4 | 5 => ScalarValue::Float(gen_f64(rng)),
+        6 => ScalarValue::String(gen_string(rng)),
+        7 => {
+            let n = rng.below(40);
+            ScalarValue::Bytes(rng.bytes(n))
+        }
+        _ => ScalarValue::Bytes(Vec::new()),
+    }
+}
+
+pub fn gen_value(rng: &mut Rng, specials: bool) -> TensorValue {
+    match rng.below(10) {
+        0..=4 => TensorValue::Scalar(gen_scalar(rng)),
+        5 => {
+            let dim = *rng.pick(&[1usize, 3, 8, 64]);
+            TensorValue::Vector(gen_vector(rng, dim, specials))
+        }
+        6 => {
+            let dim = *rng.pick(&[4usize, 16, 100]);
+            let dense: Vec<f32> = (0..dim).map(|_| if rng.chance(3, 4) { 0.0 } else { 0.5 + rng.unit_f64() as f32 }).collect();
+            TensorValue::Sparse(SparseVector::from_dense(&dense))
+        }
+        7 => TensorValue::Pointer(format!("node:{}", rng.below(50))),
+        8 => TensorValue::Pointers((0..rng.below(4)).map(|i| format!("edge:{}", i)).collect()),
+        _ => TensorValue::Vector(Vec::new()),
+    }
+}
+
+/// A value for `key`; every field is tagged with `id` (the unique write id) so that a value read
+/// back names the write that produced it. `emb:` keys get an `_embedding` most of the time, of
+/// the slab dimension (384) or another one.
+pub fn gen_data(rng: &mut Rng, key: &str, id: u64, specials: bool) -> TensorData {
+    let mut d = TensorData::new();
+    d.set("_wid", TensorValue::Scalar(ScalarValue::Int(id as i64)));
+    for f in 0..rng.below(4) {
+        d.set(format!("f{}", f), gen_value(rng, specials));
+    }
+    if key.starts_with("emb:") && rng.chance(4, 5) {
+        let v = if rng.chance(3, 4) {
+            gen_slab_vector_exact(rng, id)
+        } else {
+            let dim = *rng.pick(&[3usize, 128, 512]);
+            let mut v = gen_vector(rng, dim, specials);
+            v[0] = id as f32; // make the vector identify its write too
+            v
+        };
+        d.set("_embedding", TensorValue::Vector(v));
+    }
+    if key.starts_with("node:") {
+        d.set("_type", TensorValue::Scalar(ScalarValue::String("node".into())));
+    }
+    d
+}
+
+/// A 384-dim vector (the embedding slab's dimension) that every snapshot format stores exactly:
+/// at least 55% exact zeros (so the slab snapshot picks its sparse representation, which keeps
+/// every component above 1e-6 bit-exactly), finite non-zero components of magnitude >= 0.01.
+/// Element 0 carries the write id. (Dense >= 256-dim vectors go through the lossy tensor-train
+/// path of snapshots; those are judged by C07 against the documented tolerance, not here.)
+pub fn gen_slab_vector_exact(rng: &mut Rng, id: u64) -> Vec<f32> {
+    let mut v: Vec<f32> = (0..384)
+        .map(|_| {
+            if rng.chance(3, 5) {
+                0.0
+            } else {
+                let m = 0.01 + rng.unit_f64() as f32 * 2.0;
+                if rng.bool() {
+                    m
+                } else {
+                    -m
+                }
+            }
+        })
+        .collect();
+    let nz = v.iter().filter(|x| **x != 0.0).count();
+    // enforce the zero share deterministically
+    if nz * 20 > 384 * 9 {
+        let mut extra = nz - 384 * 9 / 20;
+        for x in v.iter_mut().skip(1) {
+            if extra == 0 {
+                break;
+            }
+            if *x != 0.0 {
+                *x = 0.0;
+                extra -= 1;
+            }
+        }
+    }
+    v[0] = id as f32 + 1.0;
+    v
+}
+
+// ---------------------------------------------------------------------------------------------
+// canonical view
+// ---------------------------------------------------------------------------------------------
+
+pub fn canon_value(v: &TensorValue) -> String {
+    match v {
+        TensorValue::Scalar(s) => match s {
+            ScalarValue::Null => "null".into(),
+            ScalarValue::Bool(b) => format!("b:{}", b),
+            ScalarValue::Int(i) => format!("i:{}", i),
+            ScalarValue::Float(f) => {
+                if f.is_nan() {
+                    "f:NaN".into()
+                } else {
+                    format!("f:{:016x}", f.to_bits())
+                }
+            }
+            ScalarValue::String(s) => format!("s:{:?}", s),
+            ScalarValue::Bytes(b) => format!("y:{}", hex(b)),
+        },
+        TensorValue::Vector(xs) => format!("v[{}]:{}", xs.len(), canon_f32s(xs)),
+        TensorValue::Sparse(sv) => format!(
+            "sp[{}]:{:?}:{}",
+            sv.dimension(),
+            sv.positions(),
+            canon_f32s(sv.values())
+        ),
+        TensorValue::Pointer(p) => format!("p:{:?}", p),
+        TensorValue::Pointers(ps) => format!("ps:{:?}", ps),
+    }
+}
+
+pub fn canon_f32s(xs: &[f32]) -> String {
+    let mut s = String::with_capacity(xs.len() * 9);
+    for x in xs {
+        if x.is_nan() {
+            s.push_str("NaN,");
+        } else {
+            s.push_str(&format!("{:08x},", x.to_bits()));
+        }
+    }
+    s
+}
+
+pub fn hex(b: &[u8]) -> String {
+    let mut s = String::with_capacity(b.len() * 2);
+    for x in b {
+        s.push_str(&format!("{:02x}", x));
+    }
+    s
+}
+
+pub fn canon_data(d: &TensorData) -> String {
+    let mut fields: Vec<(&String, &TensorValue)> = d.fields_iter().collect();
+    fields.sort_by(|a, b| a.0.cmp(b.0));
+    let mut s = String::new();
+    for (k, v) in fields {
+        s.push_str(k);
+        s.push('=');
+        s.push_str(&canon_value(v));
+        s.push(';');
+    }
+    s
+}
+
+pub type View = BTreeMap<String, String>;
+
+/// Everything the store shows through scan("") + get, except non-durable cache keys.
+pub fn view(store: &TensorStore) -> View {
+    let mut v = View::new();
+    for k in store.scan("") {
+        if k.starts_with("_cache:") {
+            continue;
+        }
+        match store.get(&k) {
+            Ok(d) => {
+                v.insert(k, canon_data(&d));
+            }
+            Err(_) => {
+                v.insert(k, "<listed by scan but get fails>".into());
+            }
+        }
+    }
+    v
+}
+
+pub fn view_diff(a: &View, b: &View) -> String {
+    let mut out = Vec::new();
+    for (k, va) in a {
+        match b.get(k) {
+            None => out.push(format!("-{}", k)),
+            Some(vb) if vb != va => out.push(format!("~{} [{}] vs [{}]", k, trunc(va, 160), trunc(vb, 160))),
+            _ => {}
+        }
+    }
+    for k in b.keys() {
+        if !a.contains_key(k) {
+            out.push(format!("+{}", k));
+        }
+    }
+    out.join(" | ")
+}
+
+pub fn trunc(s: &str, n: usize) -> String {
+    if s.len() <= n {
+        s.to_string()
+    } else {
+        let mut e = n;
+        while !s.is_char_boundary(e) {
+            e -= 1;
+        }
+        format!("{}…", &s[..e])
+    }
+}
+
+// ---------------------------------------------------------------------------------------------
+// directory images
+// ---------------------------------------------------------------------------------------------
+
+/// file name -> bytes, for every regular file in `dir`
+pub type DirImage = BTreeMap<String, Vec<u8>>;
+
+pub fn read_dir_image(dir: &Path) -> DirImage {
+    let mut m = DirImage::new();
+    if let Ok(rd) = std::fs::read_dir(dir) {
+        for e in rd.flatten() {
+            if e.path().is_file() {
+                if let Ok(b) = std::fs::read(e.path()) {
+                    m.insert(e.file_name().to_string_lossy().to_string(), b);
+                }
+            }
+        }
+    }
+    m
+}
+
+pub fn write_dir_image(dir: &Path, img: &DirImage) {
+    let _ = std::fs::remove_dir_all(dir);
+    std::fs::create_dir_all(dir).expect("mkdir image");
+    for (name, bytes) in img {
+        std::fs::write(dir.join(name), bytes).expect("write image file");
+    }
+}
